@@ -411,3 +411,48 @@ def nth_comment_spelling_ok(si: int, ni: int, with_of: bool) -> bool:
         if with_of and child:
             ok = ok and len(n.selectors) == 1 and n.selectors[0].classes == ('x',)
     return ret(ok)
+
+
+# ---------------------------------------------------------------------------------------------
+# "of S" where S is a namespace test: the counted siblings are exactly those S designates under the caller's prefix map
+NSX = bs4.BeautifulSoup('<r xmlns="urn:a" xmlns:b="urn:b"><e id="e0"/><b:e id="e1"/><e id="e2"/><n xmlns="" id="e3"/><b:e id="e4"/>'
+                        '<e id="e5"/><n xmlns="" id="e6"/></r>', 'xml')
+NSX_KIDS = [t for t in NSX.r.contents if isinstance(t, bs4.Tag)]
+NS_MAPS = [None, {}, {'': 'urn:a'}, {'': 'urn:b', 'x': 'urn:a'}, {'x': 'urn:b'}, {'': '', 'x': 'urn:b'}]
+# (text of S, predicate(namespace of the sibling, map))
+OF_S = [
+    ('*', lambda ns, m: m is None or '' not in m or m[''] == ns),
+    ('*|*', lambda ns, m: True),
+    ('|*', lambda ns, m: ns == ''),
+    ('x|*', lambda ns, m: m is not None and 'x' in m and m['x'] == ns),
+    ('e', None),
+]
+NTH_FORMS = [(':nth-child(%s of %s)', False), (':nth-last-child(%s of %s)', True)]
+ANB = [('1', 0, 1), ('2', 0, 2), ('n+2', 1, 2), ('2n+1', 2, 1), ('-n+2', -1, 2), ('odd', 2, 1)]
+
+
+def nth_of_ns_ok(oi: int, mi: int) -> bool:
+    """
+    pre: 0 <= oi < len(OF_S)
+    pre: 0 <= mi < len(NS_MAPS)
+    post: _
+    """
+    oi, mi = concrete(oi), concrete(mi)
+    with notrace():
+        stext, pred = OF_S[oi]
+        m = NS_MAPS[mi]
+        if pred is None:
+            def pred(ns, m, _d=OF_S[0][1]):      # a bare type selector: same namespace rule as the bare universal
+                return _d(ns, m)
+            keep = [k for k in NSX_KIDS if k.name == 'e' and pred(k.namespace or '', m)]
+        else:
+            keep = [k for k in NSX_KIDS if pred(k.namespace or '', m)]
+        ok = True
+        for form, last in NTH_FORMS:
+            for txt, a, b in ANB:
+                c = sv.compile('*|*' + form % (txt, stext), namespaces=m)
+                seq = keep[::-1] if last else keep
+                exp = [k.get('id') for k in NSX_KIDS if any(k is s and ref_anb(a, b, i + 1) for i, s in enumerate(seq))]
+                got = [k.get('id') for k in c.select(NSX.r)]
+                ok = ok and got == exp and [k.get('id') for k in NSX_KIDS if c.match(k)] == exp
+    return ret(ok)
